@@ -625,3 +625,10 @@ Proof.
   - reflexivity.
   - reflexivity.
 Qed.
+
+(** Non-vacuity for the composite: three members, two notifications; and the third member's enter raising *)
+Example nonvacuous_composite :
+  member_view 1 (composite_run [false; false; false] [Total (1%nat, [5%nat]) 2; Running (1%nat, [5%nat])]) =
+    [MEnter 1; MNote 1 (Total (1%nat, [5%nat]) 2); MNote 1 (Running (1%nat, [5%nat])); MExit 1] /\
+  composite_run [false; false; true] [Running (1%nat, [5%nat])] = [MEnter 0; MEnter 1; MEnterRaised 2; MExit 1; MExit 0].
+Proof. split; reflexivity. Qed.
